@@ -440,6 +440,6 @@ Print Assumptions c15_multioutput_by_tasks_refuted.
 (* independent tasks are the LMC construction with the identity mixing matrix and no jitter *)
 Theorem c15_independent_is_lmc_identity :
   forall (K : Fld) (L : nat) (mu v : nat -> nat -> car) (i t : nat), (t < L)%nat ->
-    lmc_mean L mI mu i t = mu t i /\ lmc_var L mI f0 v i t = v t i.
+    C15_elbo.lmc_mean L mI mu i t = mu t i /\ C15_elbo.lmc_var L mI f0 v i t = v t i.
 Proof. intros K L mu v i t Ht. split; [exact (@lmc_identity_mean K L mu i t Ht) | exact (@lmc_identity_var K L v i t Ht)]. Qed.
 Print Assumptions c15_independent_is_lmc_identity.
